@@ -35,7 +35,7 @@ func runC15(r *Run, p *Prog) {
 				continue
 			}
 			recv := strip(T.T(cs.Common.Value))
-			isListener := strings.Contains(recv, ".listener") || isNamed(cs.Common.Value.Type(), "net", "Listener")
+			isListener := strings.Contains(recv, "."+svcF.Listener) || isNamed(cs.Common.Value.Type(), "net", "Listener")
 			if !isListener {
 				continue
 			}
@@ -48,7 +48,7 @@ func runC15(r *Run, p *Prog) {
 					okArg = true
 				}
 			}
-			r.Ob("I1", shortName(f), "listener deadline = time.Now().Add(timeout)", cs.Instr.Pos(), okArg && strings.Contains(recv, ".listener"),
+			r.Ob("I1", shortName(f), "listener deadline = time.Now().Add(timeout)", cs.Instr.Pos(), okArg && strings.Contains(recv, "."+svcF.Listener),
 				fmt.Sprintf("the accept deadline is set to %s on %s; expected now+timeout on the Service's listener", at, recv))
 			// a failing SetDeadline is reported to the caller
 			if v, ok := cs.Instr.(ssa.Value); ok {
@@ -79,7 +79,7 @@ func runC15(r *Run, p *Prog) {
 		}
 		if c.Call.IsInvoke() && c.Call.Method.Name() == "SetDeadline" {
 			recv := strip(T.T(c.Call.Value))
-			return strings.Contains(recv, ".listener") || isNamed(c.Call.Value.Type(), "net", "Listener")
+			return strings.Contains(recv, "."+svcF.Listener) || isNamed(c.Call.Value.Type(), "net", "Listener")
 		}
 		t := staticTarget(&c.Call)
 		return t != nil && refresh[t]
@@ -284,7 +284,7 @@ func runC15(r *Run, p *Prog) {
 					continue
 				}
 				rt := strip(T.T(recv))
-				if strings.Contains(rt, ".listener") || isNamed(recv.Type(), "net", "Listener") || isNamed(recv.Type(), "net", "TCPListener") || isNamed(recv.Type(), "net", "UnixListener") {
+				if strings.Contains(rt, "."+svcF.Listener) || isNamed(recv.Type(), "net", "Listener") || isNamed(recv.Type(), "net", "TCPListener") || isNamed(recv.Type(), "net", "UnixListener") {
 					r.Ob("I1", shortName(f), "listener deadline set only by the refresh function", cs.Instr.Pos(), refresh[f], "a second place sets the listener's deadline")
 				}
 			}
@@ -297,14 +297,14 @@ func runC15(r *Run, p *Prog) {
 			isClose := func(in ssa.Instruction) bool { return ec.closesListener(in) }
 			isDrop := func(in ssa.Instruction) bool {
 				// the point at which the reference is gone: a direct zero store, or a helper that drops without closing
-				if isZeroStoreTo(in, "listener") {
+				if isZeroStoreTo(in, svcF.Listener) {
 					return true
 				}
-				return ec.zeroes(in, "listener") && !ec.closesListener(in)
+				return ec.zeroes(in, svcF.Listener) && !ec.closesListener(in)
 			}
 			reach, w := reachInstr(rf, nil, isDrop, isClose, func(a, b *ssa.BasicBlock) bool {
 				for _, f := range T.edgeFactsOn(a, b) {
-					if f.Op == "EQ" && (f.A == "nil" && strings.HasSuffix(strip(f.B), ".listener") || f.B == "nil" && strings.HasSuffix(strip(f.A), ".listener")) {
+					if f.Op == "EQ" && (f.A == "nil" && strings.HasSuffix(strip(f.B), "."+svcF.Listener) || f.B == "nil" && strings.HasSuffix(strip(f.A), "."+svcF.Listener)) {
 						return true
 					}
 				}
@@ -312,7 +312,7 @@ func runC15(r *Run, p *Prog) {
 			})
 			r.Ob("I3", shortName(rf), "the reset closes the listener it drops, on every path where one is set", rf.Pos(), !reach,
 				"the reset can forget a listener without closing it: after a timeout exit the endpoint stays open - later connection attempts hang instead of failing, the socket file remains and the address cannot be served again", witnessPos(p, w)...)
-			ok, w2 := everyPathPasses(rf, nil, isReturn, func(in ssa.Instruction) bool { return ec.zeroes(in, "listener") })
+			ok, w2 := everyPathPasses(rf, nil, isReturn, func(in ssa.Instruction) bool { return ec.zeroes(in, svcF.Listener) })
 			r.Ob("I3", shortName(rf), "the reset drops the listener reference on every path", rf.Pos(), ok, "", witnessPos(p, w2)...)
 		}
 		if len(m.Reset) == 0 {
